@@ -371,9 +371,17 @@ class Runner:
             c = op[1]
             for mid, x in model.m.items():
                 ents = obs.get(mid, [])
-                if x["place"] == "held" and x["holder"] == c and len(ents) == 1 and ents[0]["place"] != "held":
+                if x["place"] == "held" and x["holder"] == c and len(ents) == 1 and \
+                        (ents[0]["place"] != "held" or holders.get(mid)):
                     p = ents[0]["place"]
+                    if p == "held":
+                        # returned and already prefetched again by another started consumer
+                        p = "delayed" if x["due"] is not None else "waiting"
+                        if x["src"] == "DEAD":
+                            p = "dead"
                     legal = {"NORMAL": ("waiting", "delayed"), "DELAYED": ("delayed",), "DEAD": ("dead",)}[x["src"]]
+                    if x["src"] == "DELAYED" and x["due"] is not None and x["due"] <= now_end:
+                        legal = ("delayed", "waiting")  # already due: behaves like a normal message
                     if p in legal:
                         x.update(holder=None)
                         if p == "dead":
